@@ -199,10 +199,14 @@ slot_base::operator=(const slot_base& src)
   if (rep_) // Silently exchange the slot_rep.
   {
     new_rep_->set_parent(rep_->parent_, rep_->cleanup_);
-    delete rep_; // Calls destroy(), but does not call disconnect().
+    // Let this slot refer to the new slot_rep before the old one is deleted.
+    // Deleting it may delete the parent, which then must detach from the new slot_rep.
+    auto old_rep_ = rep_;
+    rep_ = new_rep_;
+    delete old_rep_; // Calls destroy(), but does not call disconnect().
   }
-
-  rep_ = new_rep_;
+  else
+    rep_ = new_rep_;
 
   return *this;
 }
@@ -244,9 +248,14 @@ slot_base::operator=(slot_base&& src)
   if (rep_) // Silently exchange the slot_rep.
   {
     new_rep_->set_parent(rep_->parent_, rep_->cleanup_);
-    delete rep_; // Calls destroy(), but does not call disconnect().
+    // Let this slot refer to the new slot_rep before the old one is deleted.
+    // Deleting it may delete the parent, which then must detach from the new slot_rep.
+    auto old_rep_ = rep_;
+    rep_ = new_rep_;
+    delete old_rep_; // Calls destroy(), but does not call disconnect().
   }
-  rep_ = new_rep_;
+  else
+    rep_ = new_rep_;
   return *this;
 }
 
